@@ -71,7 +71,7 @@ inline cocls::generator<int, int> g_body_arg(g_world &W, int src) {
 
 // waiting loops of the harness poll politely: after a short spin they sleep, so that a consumer blocked forever inside the library
 // leaves every thread in state S and the quiescence watchdog can report the hang within seconds
-inline void g_polite_wait(unsigned &spins) { if (++spins < 4000) vf::cpu_relax(); else usleep(100); }
+inline void g_polite_wait(unsigned &spins) { if (++spins < 4000) vf::cpu_relax(); else if (spins < 4300) usleep(100); else usleep(3000); } // long waits sleep almost all the time (hang verdict needs quiet samples)
 
 // ---- consumer: obtains item after item, the access style is chosen per step. The driver is ordinary code (blocking styles are
 // not allowed inside coroutines); the two awaiting styles run as a small coroutine per step.
@@ -411,6 +411,51 @@ inline void aggregator_programs(const vf::opts &o, vf::report &R, vf::team &T, u
         if (mt && has_pending) R.cls("programs_with_cross_thread_completion");
         if (stop_early) R.cls("programs_destroying_the_aggregate_while_parked");
         if (R.samples.size() < 4 && nsrc >= 3) R.sample(vf::jobj().kv("program", desc).kv("observed", g_got_str(W.got)).str());
+    }
+}
+
+// ---------------------------------------------------------------------------------------------
+// Values whose move empties the source (std::string): the body yields temporaries AND an lvalue it keeps using; the consumer mixes
+// all synchronous access styles. Every style must deliver exactly the yielded text, value() must still show it afterwards, and the
+// body's own variable must never be emptied by a reader.
+inline cocls::generator<std::string> g_string_body(int n, std::vector<std::string> &expect, int pattern) {
+    std::string acc = "acc";
+    for (int i = 0; i < n; i++) {
+        if ((pattern >> (i % 8)) & 1) { std::string t = "temporary-item-with-a-long-text-" + std::to_string(i); expect.push_back(t); co_yield std::move(t); }
+        else { acc += "+" + std::to_string(i) + "-long-enough-to-live-on-the-heap"; expect.push_back(acc); co_yield acc; }
+    }
+}
+inline void generator_string_values(const vf::opts &o, vf::report &R, uint64_t programs) {
+    vf::rng master(vf::mix(o.seed, 0x313));
+    for (uint64_t pn = 0; pn < programs && R.nviol() < 5; pn++) {
+        vf::rng r(master.next());
+        int n = 1 + (int)r.below(8), pattern = (int)r.below(256);
+        vf::set_crash_ctx(R.prop.c_str(), "generator_string_values", o.seed, pn);
+        std::vector<std::string> expect, got; std::string styles, err;
+        {
+            auto g = g_string_body(n, expect, pattern);
+            std::optional<cocls::generator<std::string>::iterator> it;
+            for (int step = 0; step <= n && err.empty(); step++) {
+                int style = (int)r.below(3);
+                styles += (char)('0' + style);
+                bool have = false; std::string item;
+                if (style == 0) { if (g.next()) { item = g.value(); have = true; } }
+                else if (style == 1) { if (!it) it.emplace(g.begin()); else ++(*it); if (*it != g.end()) { item = **it; have = true; } }
+                else { cocls::future<std::string> f = g(); if (f.has_value()) { item = *f; have = true; } }
+                if (!have) break;
+                got.push_back(item);
+                if (g.value() != item) err = "value() after reading item " + std::to_string(step) + " shows '" + g.value().substr(0, 40) + "' instead of the item just delivered";
+            }
+        }
+        R.cases++;
+        if (err.empty() && got != expect) {
+            size_t k = 0; while (k < got.size() && k < expect.size() && got[k] == expect[k]) k++;
+            err = "item " + std::to_string(k) + ": consumer received '" + (k < got.size() ? got[k].substr(0, 48) : std::string("<end>")) + "', the body yielded '" + (k < expect.size() ? expect[k].substr(0, 48) : std::string("<end>")) + "'";
+        }
+        if (!err.empty()) { R.violation("monitor:sequence|generator_string_values", err, vf::jobj().kv("program", (unsigned long long)pn).kv("items", n).kv("temporary_pattern", pattern).kv("styles", styles).str()); continue; }
+        if (n >= 2) { R.nontrivial_cases++; R.sig(std::to_string(n) + "/" + std::to_string(pattern) + "/" + styles); }
+        R.cls("string_items_delivered", (uint64_t)got.size());
+        if (R.samples.size() < 2 && n > 3) R.sample(vf::jobj().kv("items", n).kv("styles", styles).kv("result", "all texts identical to what the body yielded").str());
     }
 }
 
